@@ -38,6 +38,8 @@ structure Sim where
   queued : Nat       -- Serial Notify PDUs waiting in the client's inbox
   newSession : Nat
   failed : Bool
+  /-- the source publishes its next version right after handing out a snapshot or a diff -/
+  race : Bool := false
 
 def showUpd (u : Update) : String :=
   if u.isEmpty then "-" else ",".intercalate (u.map fun (a, x) =>
@@ -53,13 +55,21 @@ def simEvent (cap : Nat) (s : Sim) (e : String) : Sim × Option String :=
     | .fail => ({ s with failed := true }, some "fail")
     | .ok c' reset upd =>
       let st := match c'.state with | some (a, b) => s!"{a}.{b}" | none => "-"
-      ({ s with client := c', stepped := true, queued := 0 },
+      -- a racing source has moved on by one version (origin 11 toggled) once the data was handed out; the client
+      -- holds what it was given, named by the End of Data
+      let src' := if s.race then
+          s.src.update true (if s.src.cur.contains (.origin 11) then s.src.cur.filter (· != .origin 11)
+                             else sortSet (.origin 11 :: s.src.cur))
+        else s.src
+      ({ s with client := c', stepped := true, queued := 0, src := src' },
        some s!"ok:r{if reset then 1 else 0}:{st}:{c'.refresh}:{showUpd upd}:good")
   else if e = "n" then ({ s with queued := s.queued + 1 }, none)
   else if e.startsWith "t" then
     match (e.drop 1).toString.toNat? with
     | some n => ({ s with src := { s.src with refresh := n } }, none)
     | none => ({ s with failed := true }, some "bad-op")
+  else if e = "r1" then ({ s with race := true }, none)
+  else if e = "r0" then ({ s with race := false }, none)
   else if e = "ns" then ({ s with src := s.src.newSession s.newSession, newSession := s.newSession + 1 }, none)
   else if e.startsWith "u" then
     let keep := (e.drop 1).take 1 == "1"
@@ -84,7 +94,7 @@ def handle (toks : List String) (impl : String) : Verdict :=
       let client : Client := ⟨st0, none, min init Rpki.Consts.rtrMaxVersion, 3600⟩
       let (_, outs) := evs.foldl (fun (acc : Sim × List String) e =>
         let (s', o) := simEvent capN acc.1 e
-        (s', match o with | some x => acc.2 ++ [x] | none => acc.2)) (⟨src, client, false, 0, 8, false⟩, [])
+        (s', match o with | some x => acc.2 ++ [x] | none => acc.2)) (⟨src, client, false, 0, 8, false, false⟩, [])
       let m := if outs.isEmpty then "-" else " ".intercalate outs
       { model := some m,
         oracle := if (impl.splitOn "BAD").length > 1 then
